@@ -165,8 +165,16 @@ let main file =
      while true do
        let line = input_line ic in
        if String.length line > 0 then begin
-         let id, c = parse_case line in
-         run_case id c;
+         (* a case the driver cannot read or run must not take the rest of its shard with it *)
+         (try
+            let id, c = parse_case line in
+            let mark = Buffer.length buf in
+            (try run_case id c
+             with Stack_overflow -> Buffer.truncate buf mark; Buffer.add_string buf "(MODEL-ERROR stack-overflow)\n"
+                | Failure m -> Buffer.truncate buf mark; Buffer.add_string buf ("(MODEL-ERROR failure " ^ String.escaped m ^ ")\n"))
+          with Failure m -> Buffer.add_string buf ("(MODEL-ERROR failure " ^ String.escaped m ^ ")\n")
+             | Stack_overflow -> Buffer.add_string buf "(MODEL-ERROR stack-overflow)\n"
+             | Not_found -> Buffer.add_string buf "(MODEL-ERROR not-found)\n");
          if Buffer.length buf > 60000 then (print_string (Buffer.contents buf); Buffer.clear buf)
        end
      done
